@@ -14,9 +14,10 @@
    ([tn_env]); the executable instance used by the correspondence is the table
    instance at the end of the file.
 
-   Not modelled: the wall-clock limit maxTrieNodeTimeSpent, the [reader == nil]
-   branch of ServiceGetTrieNodesQuery (no flat state for the root), database
-   read errors (the "Failed to prove" / missing-node returns), access lists. *)
+   Not modelled: the wall-clock limit maxTrieNodeTimeSpent; the [reader == nil]
+   branch of ServiceGetTrieNodesQuery (no flat state for the root) except for
+   the empty trie (roots common.Hash{} / EmptyRootHash, [empty_env]); database
+   read errors (the "Failed to prove" / missing-node returns); access lists. *)
 From GV Require Import Lib.Bytes Trie.Hex.
 Local Open Scope N_scope.
 
